@@ -161,10 +161,10 @@ impl EXD {
                 Some(ColumnData::String(string))
             }
             ColumnDataType::Bool => {
-                // FIXME: i believe Bool is int8?
-                let bool_data: i32 = Self::read_data_raw(cursor).unwrap();
+                // a Bool cell is a single byte
+                let bool_data: u8 = Self::read_data_raw(cursor).unwrap();
 
-                Some(ColumnData::Bool(bool_data == 1))
+                Some(ColumnData::Bool(bool_data != 0))
             }
             ColumnDataType::Int8 => Some(ColumnData::Int8(Self::read_data_raw(cursor).unwrap())),
             ColumnDataType::UInt8 => Some(ColumnData::UInt8(Self::read_data_raw(cursor).unwrap())),
